@@ -1,5 +1,5 @@
 """C18 Watchable/Future/Lazy/xsync.Map (spec/xsync)."""
-from common import mc, lts_replay
+from common import mc, mc_must_fail, lts_replay
 
 
 def typed_map(ctx):
@@ -10,7 +10,15 @@ def typed_map(ctx):
                    wlen=40, budget=ctx.pick(100000, 1000000))
 
 
+def design(ctx):
+    # D: Watchable as an atomic pointer to cells, Set = swap + close, Value = load / CAS-install / reload: all
+    #    interleavings of 2 setters and 2 readers (Watchable.tla); a plain Store instead of the CAS smashes a value (teeth)
+    mc(ctx, "xsync", "Watchable", "wa.cfg", "Watchable I-layer", coverage=False)
+    mc_must_fail(ctx, "xsync", "Watchable", "wa_store.cfg", "Value installing its empty cell with Store instead of CompareAndSwap", expect="FinalOK")
+
+
 def run(ctx):
+    design(ctx)
     typed_map(ctx)
     concurrent_part(ctx)
 
